@@ -168,8 +168,8 @@ def _arena_pipeline(tier, focus, variants, key):
     require_ok(mc, "MC_Arena")
     # 2. behaviours
     beh = os.path.join(wd, "beh.ndjson")
-    nsim, sim = simulate("Sim_Arena_full.cfg" if thorough else "Sim_Arena.cfg", 5000 if thorough else 500,
-                         45, beh, workers=6, timeout=2400)
+    nnum = (5000 if thorough else 500) if focus != "c17" else (1200 if thorough else 150)
+    nsim, sim = simulate("Sim_Arena_full.cfg" if thorough else "Sim_Arena.cfg", nnum, 45, beh, workers=6, timeout=2400)
     # 3. replay
     obs = os.path.join(wd, "obs.ndjson")
     stats, crashes = replay(bins["replay"], beh, obs, variants)
@@ -291,6 +291,70 @@ def split_parts_clause(tier, out):
                       {"check": "C16", "step": rec, "behaviour": behs.get(rec["b"])})
     return {"behaviours": P["stats"]["behaviours"], "steps_checked": P["checked"],
             "steps_with_live_split_parts": P["counters"]["N_PARTS"], "mc_states": P["mc"].distinct}
+
+
+C17_VARIANTS = "trait,dyn,ref,layout,panicking,typed,bump"
+
+
+def check_c17(tier):
+    """Every behaviour is replayed once per entry-point variant; TLC compares the variants pairwise on every step."""
+    t0 = time.time()
+    out = Outcome("C17")
+    P = arena_pipeline(tier, "c17", C17_VARIANTS)
+    wd = P["wd"]
+    merged = os.path.join(wd, "c17.ndjson")
+    groups = {}
+    order = []
+    with open(P["obs"]) as f:
+        for line in f:
+            r = json.loads(line)
+            if r["a"] == "final":
+                continue
+            key = (r["b"], r["i"])
+            if key not in groups:
+                groups[key] = {"b": r["b"], "i": r["i"], "a": r["a"], "args": r["args"], "cfg": r["cfg"], "vs": []}
+                order.append(key)
+            o = r["o"]
+            content = [o.get("prefix_ok"), o.get("zero_ok"), o.get("content_ok"), o.get("damaged")]
+            groups[key]["vs"].append({"v": r["v"], "via": o.get("via", ""), "res": o["res"], "addr": o.get("addr", 0) or 0,
+                                      "len": o.get("len", 0) or 0, "allocated": o["stats"][3], "count": o["stats"][0],
+                                      "cur": o["cur"], "pos": o["chunks"][o["cur"] - 1][4] if o["cur"] else 0,
+                                      "content": json.dumps(content)})
+    nvar = len(C17_VARIANTS.split(","))
+    with open(merged, "w") as f:
+        for key in order:
+            f.write(json.dumps(groups[key], separators=(",", ":")) + "\n")
+    results, parts, d = tlc_obs("C17Obs", "C17Obs.cfg", merged, nparts=12, timeout=3000, xmx="6g")
+    checked = tagged_int(results, "CHECKED")
+    pairs = tagged_int(results, "PAIRS")
+    bad = tagged_index_sets(results, parts, "BAD_C17")
+    shutil.rmtree(d, ignore_errors=True)
+    recs = nth_lines(merged, [g for (_, _, g) in bad][:200])
+    behs = behaviour_by_id(P["beh"], [r["b"] for r in recs.values()][:20])
+    for g, rec in sorted(recs.items()):
+        ref = rec["vs"][0]
+        differing = sorted({v["v"] for v in rec["vs"] if any(v[k] != ref[k] for k in ("res", "addr", "len", "allocated", "pos", "cur", "count", "content"))})
+        out.violation({"clause": "C17", "a": rec["a"], "differing_variants": differing},
+                      {"check": "C17", "step": rec, "behaviour": behs.get(rec["b"]),
+                       "how": "the behaviour was replayed once per entry-point variant; `step.vs` lists what each variant observed"})
+    incomplete = sum(1 for k in order if len(groups[k]["vs"]) != nvar)
+    rc = out.finish()
+    samples = [groups[k] for k in order[:2]]
+    write_evidence("C17", tier, "model_checking", {
+        "states": max(P["mc"].distinct, 1), "transitions": max(P["mc"].generated, 1),
+        "traces_validated_against_impl": P["stats"]["behaviours"] * nvar,
+        "samples": samples,
+        "steps_compared": checked, "variant_pairs_compared": pairs, "entry_point_variants": C17_VARIANTS.split(","),
+        "steps_missing_a_variant": incomplete, "replayer_crashes": len(P["crashes"]),
+        "explanation": "each TLC-generated behaviour of Arena.tla is replayed through 7 entry points (Allocator on &BumpScope, "
+                       "&dyn BumpAllocatorCore, & reference impls, try_allocate_layout, the panicking twins, the typed sized/slice fast "
+                       "paths, and the Bump type itself); TLC (C17Obs.tla) compares result, address, length, allocated bytes, position "
+                       "and content checks of all variants pairwise on every step.",
+    }, time.time() - t0, violations=len(out.violations), assumptions=[
+        "reserve through a trait object is by construction a contiguous prepare (documented difference) and is carried by the typed entry point in the dyn variant",
+        "panicking entry points are only used on steps the model expects to succeed (a panicking method aborts the process on base allocator failure)",
+    ])
+    return rc
 
 
 def check_c01(tier): return check_arena_property("C01", tier)
